@@ -59,6 +59,8 @@ class C04(Prop):
         out.append({'max': 2, 'executor': 'default', 'jobs': [{'plan': [{'fails': 0, 'v': 1, 'pos': 'mid', 'exc': 'Custom'},
                                                                           {'nested': 'count'}], 'action': 'sum'}]})
         out.append({'max': 3, 'executor': 'default', 'jobs': [{'plan': [], 'action': 'first', 'lazy': True, 'empty': True}]})
+        for nested in ('parallelize', 'count', 'first'):
+            out.append({'kind': 'serialized-nested', 'nested': nested, 'max': 2})
         return out
 
     def gen(self, rng, tier):
@@ -81,9 +83,13 @@ class C04(Prop):
         return {'max': mx, 'executor': ex, 'jobs': jobs}
 
     def nontrivial(self, case):
+        if case.get('kind') == 'serialized-nested':
+            return True
         return any(p.get('fails', 1) > 0 for j in case['jobs'] for p in j['plan'])
 
     def shrink(self, case):
+        if case.get('kind') == 'serialized-nested':
+            return
         jobs = case['jobs']
         if len(jobs) > 1:
             for i in range(len(jobs)):
@@ -197,7 +203,52 @@ class C04(Prop):
             out = {'raised_any': type(e).__name__}
         return {'result': out, 'attempts': [attempts.get(i, 0) for i in range(n)]}
 
+    def run_serialized_nested(self, case, ctx):
+        """a pool whose tasks receive PICKLED copies of function, dataset and context (serializer set): a task that creates
+        a dataset or runs an action through the context it captured must still be refused"""
+        import pickle
+
+        import cloudpickle
+        from concurrent.futures import ThreadPoolExecutor
+        ctx.note('executor:tpe+cloudpickle')
+        ctx.note('nested:' + case['nested'])
+        pool = ThreadPoolExecutor(2)
+        try:
+            sc = self.Context(pool=pool, serializer=cloudpickle.dumps, deserializer=pickle.loads, max_retries=case['max'])
+            base = sc.parallelize([1, 2, 3, 4], 2)
+            kind = case['nested']
+
+            def f(x):
+                if kind == 'parallelize':
+                    sc.parallelize([1, 2])
+                elif kind == 'count':
+                    base.count()
+                elif kind == 'first':
+                    base.first()
+                return x
+            try:
+                got = {'done': base.map(f).collect()}
+            except self.Locked:
+                got = 'refused'
+            except BaseException as e:  # pylint: disable=broad-except
+                got = {'raised': type(e).__name__}
+            try:
+                follow = sc.parallelize([1, 2, 3], 2).map(lambda x: x + 1).collect()
+            except BaseException as e:  # pylint: disable=broad-except
+                follow = {'raised': type(e).__name__}
+        finally:
+            pool.shutdown()
+        if got != 'refused':
+            return Mismatch('a task that %s through the (pickled copy of the) context was not refused with ContextIsLockedException'
+                            % {'parallelize': 'creates a dataset', 'count': 'runs count()', 'first': 'runs first()'}[kind],
+                            got, 'ContextIsLockedException', 'C04:nested:serialized', relation='spec')
+        if follow != [2, 3, 4]:
+            return Mismatch('follow-up job after the refused one', follow, [2, 3, 4], 'C04:result:follow-up', relation='spec')
+        return None
+
     def run_case(self, case, ctx):
+        if case.get('kind') == 'serialized-nested':
+            return self.run_serialized_nested(case, ctx)
         pool = self.make_pool(case['executor'])
         ctx.note('executor:' + case['executor'])
         ctx.note('max_retries:%d' % case['max'])
